@@ -802,6 +802,19 @@ class Machine:
 			env = dict(env)
 			env[name] = ('list', (n, [z3.If(idx == bv(j), x, elems[j]) for j in range(CAP)]))
 			return [(guard, 'fall', None, env)]
+		if k == 'multi':
+			names, exprs = st[1], st[2]
+			vals = [self.expr(x, env, guard) for x in exprs]
+			env = dict(env)
+			for i, (name, v) in enumerate(zip(names, vals)):
+				if self.lang == 'cpp':
+					if name in types:
+						raise Unsupported('structured binding redeclares a name')
+					typ = st[3][i] if len(st) > 3 else v[0]
+					types[name] = typ
+					v = self.convert(v, typ)
+				env[name] = v
+			return [(guard, 'fall', None, env)]
 		if k == 'try':
 			# ('try', body, handler): a raise inside the body (not inside a callee: the templates raise directly) runs the handler
 			_, body, handler = st
